@@ -560,6 +560,7 @@ func main() {
 	Register("psp_validate", opPspValidate)
 	Register("token_key", opTokenKey)
 	Register("root_key", opRootKey)
+	Register("rtm_validate", opRtmValidate)
 	registerOracles()
 	Main(gen)
 }
